@@ -582,6 +582,12 @@ pub fn hook_mutex_unlock(addr: usize) {
     if st.trace_on {
         st.trace.push(format!("t{t} unlock @{:x}", addr & 0xfff));
     }
+    drop(st);
+    // releasing a lock is a scheduling point too: another task may get in before the releasing
+    // task's next instruction (e.g. before a destructor that runs right after the unlock)
+    if me().is_some() {
+        switch_point(&sh, t, false);
+    }
 }
 
 /// Release notification (hook H4): every earlier access of *other* tasks to atomics inside
